@@ -1,0 +1,195 @@
+//go:build verif
+
+package ds
+
+// Contracts for ds.List (property C10: behaves like container/list), read by the verification machinery
+// in /verif. Comment-only file.
+//
+// Pointer-level specification: every operation performs exactly the pointer splice that the operation of
+// the same name in container/list performs (postconditions transcribe container/list's code effects: which
+// next/prev/list cells change to what, and that no other cell changes), and preserves the ring invariant
+// below. Two structures that start isomorphic and undergo the same splices stay isomorphic, so element
+// order, Len and every handle query agree with container/list for all histories (this last step is the
+// usual refinement argument, not a machine-checked lemma). The atomic.Pointer fields are plain cells here:
+// the lock-free flavour makes no concurrency promise.
+// ROOT below is the address of the sentinel l.root.
+
+/*@
+type list
+  invariant forall e *listElement :: aload(e.list) == self ==> aload(self.root.next) != nil && e != as(*listElement, addr(self.root)) && aload(e.next) != nil && aload(e.prev) != nil && aload(aload(e.next).prev) == e && aload(aload(e.prev).next) == e && (aload(e.next) == as(*listElement, addr(self.root)) || aload(aload(e.next).list) == self) && (aload(e.prev) == as(*listElement, addr(self.root)) || aload(aload(e.prev).list) == self)
+  invariant aload(self.root.next) != nil ==> aload(self.root.prev) != nil && aload(aload(self.root.next).prev) == as(*listElement, addr(self.root)) && aload(aload(self.root.prev).next) == as(*listElement, addr(self.root)) && (aload(self.root.next) == as(*listElement, addr(self.root)) || aload(aload(self.root.next).list) == self) && (aload(self.root.prev) == as(*listElement, addr(self.root)) || aload(aload(self.root.prev).list) == self)
+  invariant aload(self.root.next) == nil ==> aload(self.root.prev) == nil
+  invariant aload(self.root.list) != self
+
+func list.Len
+  requires l != nil
+  ensures r0 == l.len
+
+-- (re)initialises the ring; only meaningful for a list no element claims membership of (container/list has
+-- the same restriction: Init on a populated list leaves its elements with stale list pointers)
+func list.Init
+  requires l != nil && forall e *listElement :: aload(e.list) != l
+  requires aload(l.root.list) != l
+  modifies atomic(l.root.next), atomic(l.root.prev), l.len
+  ensures r0 != nil && inv(l) && l.len == 0
+  ensures aload(l.root.next) == as(*listElement, addr(l.root)) && aload(l.root.prev) == as(*listElement, addr(l.root))
+
+func list.lazyInit
+  requires l != nil && inv(l)
+  modifies atomic(l.root.next), atomic(l.root.prev), l.len
+  ensures inv(l) && aload(l.root.next) != nil
+  ensures old(aload(l.root.next)) != nil ==> aload(l.root.next) == old(aload(l.root.next)) && aload(l.root.prev) == old(aload(l.root.prev)) && l.len == old(l.len)
+  ensures old(aload(l.root.next)) == nil ==> aload(l.root.next) == as(*listElement, addr(l.root)) && aload(l.root.prev) == as(*listElement, addr(l.root)) && l.len == 0
+
+-- container/list: insert e after at, increments len, returns e
+func list.insert
+  requires l != nil && inv(l) && e != nil && at != nil && aload(l.root.next) != nil
+  requires at == as(*listElement, addr(l.root)) || aload(at.list) == l
+  requires aload(e.list) != l && e != as(*listElement, addr(l.root))
+  opt assume-no-overflow
+  modifies listElement.next, listElement.prev, listElement.list, l.len
+  ensures r0 == e && inv(l) && l.len == old(l.len) + 1
+  ensures aload(at.next) == e && aload(e.prev) == at && aload(e.next) == old(aload(at.next)) && aload(old(aload(at.next)).prev) == e && aload(e.list) == l
+  ensures forall x *listElement :: x != e && x != at ==> aload(x.next) == old(aload(x.next))
+  ensures forall x *listElement :: x != e && x != old(aload(at.next)) ==> aload(x.prev) == old(aload(x.prev))
+  ensures forall x *listElement :: x != e ==> aload(x.list) == old(aload(x.list))
+
+func list.insertValue
+  requires l != nil && inv(l) && at != nil && aload(l.root.next) != nil
+  requires at == as(*listElement, addr(l.root)) || aload(at.list) == l
+  opt assume-no-overflow
+  modifies listElement.next, listElement.prev, listElement.list, l.len
+  ensures r0 != nil && fresh(r0) && inv(l) && l.len == old(l.len) + 1 && aload(r0.value) != nil && *aload(r0.value) == v
+  ensures aload(at.next) == r0 && aload(r0.prev) == at && aload(r0.next) == old(aload(at.next)) && aload(old(aload(at.next)).prev) == r0 && aload(r0.list) == l
+  ensures forall x *listElement :: x != r0 && x != at ==> aload(x.next) == old(aload(x.next))
+  ensures forall x *listElement :: x != r0 && x != old(aload(at.next)) ==> aload(x.prev) == old(aload(x.prev))
+  ensures forall x *listElement :: x != r0 ==> aload(x.list) == old(aload(x.list))
+
+-- container/list: unlink e, clear its links and its list pointer, decrement len
+func list.remove
+  requires l != nil && inv(l) && e != nil && aload(e.list) == l
+  modifies listElement.next, listElement.prev, listElement.list, l.len
+  opt assume-no-overflow
+  ensures inv(l) && l.len == old(l.len) - 1
+  ensures old(aload(e.prev)) != e ==> aload(old(aload(e.prev)).next) == old(aload(e.next))
+  ensures old(aload(e.next)) != e ==> aload(old(aload(e.next)).prev) == old(aload(e.prev))
+  ensures aload(e.next) == nil && aload(e.prev) == nil && aload(e.list) == nil
+  ensures forall x *listElement :: x != e && x != old(aload(e.prev)) ==> aload(x.next) == old(aload(x.next))
+  ensures forall x *listElement :: x != e && x != old(aload(e.next)) ==> aload(x.prev) == old(aload(x.prev))
+  ensures forall x *listElement :: x != e ==> aload(x.list) == old(aload(x.list))
+
+-- container/list: move e to the position after at (no-op for e == at); len and list pointers unchanged.
+-- AN is what at.next is after e has been unlinked (at.next itself, unless at was e's predecessor).
+func list.move
+  requires l != nil && inv(l) && e != nil && at != nil && aload(e.list) == l
+  requires at == as(*listElement, addr(l.root)) || aload(at.list) == l
+  modifies listElement.next, listElement.prev
+  ensures inv(l)
+  ensures e == at ==> forall x *listElement :: aload(x.next) == old(aload(x.next)) && aload(x.prev) == old(aload(x.prev))
+  ensures e != at ==> aload(e.prev) == at && aload(at.next) == e
+  ensures e != at && at != old(aload(e.prev)) ==> aload(e.next) == old(aload(at.next)) && aload(old(aload(at.next)).prev) == e
+  ensures e != at && at != old(aload(e.prev)) && old(aload(e.prev)) != e ==> aload(old(aload(e.prev)).next) == old(aload(e.next))
+  ensures e != at && at == old(aload(e.prev)) ==> aload(e.next) == old(aload(e.next)) && aload(old(aload(e.next)).prev) == e
+  ensures e != at && old(aload(e.next)) != old(aload(at.next)) && at != old(aload(e.prev)) && old(aload(e.next)) != e ==> aload(old(aload(e.next)).prev) == old(aload(e.prev))
+  ensures forall x *listElement :: x != e && x != at && x != old(aload(e.prev)) ==> aload(x.next) == old(aload(x.next))
+  ensures forall x *listElement :: x != e && x != old(aload(e.next)) && x != old(aload(at.next)) ==> aload(x.prev) == old(aload(x.prev))
+
+-- public methods: same results and the same no-op behaviour for foreign / removed handles as container/list
+func list.Front
+  requires l != nil && inv(l)
+  ensures l.len == 0 ==> r0 == nil
+  ensures l.len != 0 ==> r0 != nil && typeof(r0) == typeid(*listElement) && unbox(*listElement, r0) == aload(l.root.next)
+
+func list.Back
+  requires l != nil && inv(l)
+  ensures l.len == 0 ==> r0 == nil
+  ensures l.len != 0 ==> r0 != nil && typeof(r0) == typeid(*listElement) && unbox(*listElement, r0) == aload(l.root.prev)
+
+func list.PushFront
+  requires l != nil && inv(l)
+  opt assume-no-overflow
+  modifies listElement.next, listElement.prev, listElement.list, l.len
+  ensures inv(l) && r0 != nil && typeof(r0) == typeid(*listElement) && fresh(unbox(*listElement, r0))
+  ensures aload(l.root.next) == unbox(*listElement, r0) && aload(unbox(*listElement, r0).prev) == as(*listElement, addr(l.root)) && aload(unbox(*listElement, r0).list) == l
+  ensures aload(unbox(*listElement, r0).next) == (old(aload(l.root.next)) == nil ? as(*listElement, addr(l.root)) : old(aload(l.root.next)))
+  ensures *aload(unbox(*listElement, r0).value) == value
+
+func list.PushBack
+  requires l != nil && inv(l)
+  opt assume-no-overflow
+  modifies listElement.next, listElement.prev, listElement.list, l.len
+  ensures inv(l) && r0 != nil && typeof(r0) == typeid(*listElement) && fresh(unbox(*listElement, r0))
+  ensures aload(l.root.prev) == unbox(*listElement, r0) && aload(unbox(*listElement, r0).next) == as(*listElement, addr(l.root)) && aload(unbox(*listElement, r0).list) == l
+  ensures aload(unbox(*listElement, r0).prev) == (old(aload(l.root.prev)) == nil ? as(*listElement, addr(l.root)) : old(aload(l.root.prev)))
+  ensures *aload(unbox(*listElement, r0).value) == value
+
+func list.Remove
+  requires l != nil && inv(l) && e != nil && typeof(e) == typeid(*listElement) && unbox(*listElement, e) != nil && aload(unbox(*listElement, e).value) != nil
+  opt assume-no-overflow
+  modifies listElement.next, listElement.prev, listElement.list, l.len
+  ensures inv(l) && r0 == *aload(unbox(*listElement, e).value)
+  ensures old(aload(unbox(*listElement, e).list)) == l ==> aload(unbox(*listElement, e).list) == nil && l.len == old(l.len) - 1
+  -- a handle that does not belong to this list changes nothing
+  ensures old(aload(unbox(*listElement, e).list)) != l ==> l.len == old(l.len) && forall x *listElement :: aload(x.next) == old(aload(x.next)) && aload(x.prev) == old(aload(x.prev)) && aload(x.list) == old(aload(x.list))
+
+func list.InsertBefore
+  requires l != nil && inv(l) && position != nil && typeof(position) == typeid(*listElement) && unbox(*listElement, position) != nil
+  opt assume-no-overflow
+  modifies listElement.next, listElement.prev, listElement.list, l.len
+  ensures inv(l)
+  ensures old(aload(unbox(*listElement, position).list)) == l ==> r0 != nil && typeof(r0) == typeid(*listElement) && aload(unbox(*listElement, r0).next) == unbox(*listElement, position) && aload(unbox(*listElement, position).prev) == unbox(*listElement, r0) && aload(unbox(*listElement, r0).prev) == old(aload(unbox(*listElement, position).prev)) && l.len == old(l.len) + 1
+  ensures old(aload(unbox(*listElement, position).list)) != l ==> r0 == nil && l.len == old(l.len) && forall x *listElement :: aload(x.next) == old(aload(x.next)) && aload(x.prev) == old(aload(x.prev)) && aload(x.list) == old(aload(x.list))
+
+func list.InsertAfter
+  requires l != nil && inv(l) && position != nil && typeof(position) == typeid(*listElement) && unbox(*listElement, position) != nil
+  opt assume-no-overflow
+  modifies listElement.next, listElement.prev, listElement.list, l.len
+  ensures inv(l)
+  ensures old(aload(unbox(*listElement, position).list)) == l ==> r0 != nil && typeof(r0) == typeid(*listElement) && aload(unbox(*listElement, r0).prev) == unbox(*listElement, position) && aload(unbox(*listElement, position).next) == unbox(*listElement, r0) && aload(unbox(*listElement, r0).next) == old(aload(unbox(*listElement, position).next)) && l.len == old(l.len) + 1
+  ensures old(aload(unbox(*listElement, position).list)) != l ==> r0 == nil && l.len == old(l.len) && forall x *listElement :: aload(x.next) == old(aload(x.next)) && aload(x.prev) == old(aload(x.prev)) && aload(x.list) == old(aload(x.list))
+
+func list.MoveToFront
+  requires l != nil && inv(l) && element != nil && typeof(element) == typeid(*listElement) && unbox(*listElement, element) != nil
+  modifies listElement.next, listElement.prev
+  ensures inv(l)
+  ensures aload(unbox(*listElement, element).list) == l ==> aload(l.root.next) == unbox(*listElement, element)
+  ensures aload(unbox(*listElement, element).list) != l ==> forall x *listElement :: aload(x.next) == old(aload(x.next)) && aload(x.prev) == old(aload(x.prev))
+
+func list.MoveToBack
+  requires l != nil && inv(l) && element != nil && typeof(element) == typeid(*listElement) && unbox(*listElement, element) != nil
+  modifies listElement.next, listElement.prev
+  ensures inv(l)
+  ensures aload(unbox(*listElement, element).list) == l ==> aload(l.root.prev) == unbox(*listElement, element)
+  ensures aload(unbox(*listElement, element).list) != l ==> forall x *listElement :: aload(x.next) == old(aload(x.next)) && aload(x.prev) == old(aload(x.prev))
+
+-- container/list: if e or mark is not an element of l, or e == mark, the list is not modified;
+-- otherwise e ends up immediately before (after) mark
+func list.MoveBefore
+  requires l != nil && inv(l) && element != nil && position != nil && typeof(element) == typeid(*listElement) && typeof(position) == typeid(*listElement) && unbox(*listElement, element) != nil && unbox(*listElement, position) != nil
+  modifies listElement.next, listElement.prev
+  ensures inv(l)
+  ensures aload(unbox(*listElement, element).list) == l && aload(unbox(*listElement, position).list) == l && element != position ==> aload(unbox(*listElement, element).next) == unbox(*listElement, position) && aload(unbox(*listElement, position).prev) == unbox(*listElement, element)
+  ensures aload(unbox(*listElement, element).list) != l || aload(unbox(*listElement, position).list) != l || element == position ==> forall x *listElement :: aload(x.next) == old(aload(x.next)) && aload(x.prev) == old(aload(x.prev))
+
+func list.MoveAfter
+  requires l != nil && inv(l) && element != nil && position != nil && typeof(element) == typeid(*listElement) && typeof(position) == typeid(*listElement) && unbox(*listElement, element) != nil && unbox(*listElement, position) != nil
+  modifies listElement.next, listElement.prev
+  ensures inv(l)
+  ensures aload(unbox(*listElement, element).list) == l && aload(unbox(*listElement, position).list) == l && element != position ==> aload(unbox(*listElement, element).prev) == unbox(*listElement, position) && aload(unbox(*listElement, position).next) == unbox(*listElement, element)
+  ensures aload(unbox(*listElement, element).list) != l || aload(unbox(*listElement, position).list) != l || element == position ==> forall x *listElement :: aload(x.next) == old(aload(x.next)) && aload(x.prev) == old(aload(x.prev))
+
+-- handles: Next/Prev stop at the sentinel and on removed elements, Value is the stored value
+func listElement.Next
+  requires l != nil
+  ensures (aload(l.list) == nil || aload(l.next) == as(*listElement, addr(aload(l.list).root))) ==> r0 == nil
+  ensures aload(l.list) != nil && aload(l.next) != as(*listElement, addr(aload(l.list).root)) ==> r0 != nil && typeof(r0) == typeid(*listElement) && unbox(*listElement, r0) == aload(l.next)
+
+func listElement.Prev
+  requires l != nil
+  ensures (aload(l.list) == nil || aload(l.prev) == as(*listElement, addr(aload(l.list).root))) ==> r0 == nil
+  ensures aload(l.list) != nil && aload(l.prev) != as(*listElement, addr(aload(l.list).root)) ==> r0 != nil && typeof(r0) == typeid(*listElement) && unbox(*listElement, r0) == aload(l.prev)
+
+func listElement.Value
+  requires l != nil
+  ensures aload(l.value) != nil ==> r0 == *aload(l.value)
+@*/
